@@ -168,4 +168,72 @@ theorem hilbertGen_spec : ∀ (n : Nat) (a x y dx dy : Int), Ang a → Dir dx dy
       simp only [InSq]
       rcases ha with rfl | rfl <;> rcases hd with ⟨rfl, rfl⟩ | ⟨rfl, rfl⟩ | ⟨rfl, rfl⟩ | ⟨rfl, rfl⟩ <;> omega
 
+/-! ### `hilbert(level)` and `hilbert_chip_order` -/
+
+theorem hilbertPts_spec (L : Nat) :
+    (hilbertPts L).Nodup ∧
+    ∀ q : Int × Int, q ∈ hilbertPts L ↔ 0 ≤ q.1 ∧ q.1 < 2 ^ L ∧ 0 ≤ q.2 ∧ q.2 < 2 ^ L := by
+  have S := hilbertGen_spec L 1 0 0 1 0 (Or.inl rfl) (Or.inl ⟨rfl, rfl⟩)
+  refine ⟨S.nodup, fun q => ?_⟩
+  unfold hilbertPts
+  rw [S.mem q]
+  obtain ⟨qx, qy⟩ := q
+  simp only [InSq]
+  generalize (2 : Int) ^ L = K
+  omega
+
+theorem le_two_pow_clog2 (n : Nat) : n ≤ 2 ^ clog2 n := by
+  unfold clog2
+  split
+  · rename_i h; simp; omega
+  · have := Nat.lt_log2_self (n := n - 1)
+    omega
+
+theorem hilbertChips_mem (w h : Nat) (c : Chip) :
+    c ∈ hilbertChips w h ↔ c.1 < 2 ^ clog2 (max w h) ∧ c.2 < 2 ^ clog2 (max w h) := by
+  obtain ⟨cx, cy⟩ := c
+  unfold hilbertChips
+  generalize clog2 (max w h) = L
+  have hp : ((2 ^ L : Nat) : Int) = (2 : Int) ^ L := by rw [Int.natCast_pow]; rfl
+  simp only [List.mem_filterMap]
+  constructor
+  · rintro ⟨q, hq, hf⟩
+    obtain ⟨qx, qy⟩ := q
+    have := ((hilbertPts_spec L).2 (qx, qy)).1 hq
+    simp only at this hf
+    split at hf
+    · injection hf with hf; injection hf with h1 h2
+      subst h1; subst h2
+      omega
+    · simp at hf
+  · rintro ⟨h1, h2⟩
+    refine ⟨((cx : Int), (cy : Int)), ((hilbertPts_spec L).2 _).2 ?_, ?_⟩
+    · simp only; omega
+    · simp
+
+theorem hilbertChips_nodup (w h : Nat) : (hilbertChips w h).Nodup := by
+  unfold hilbertChips List.Nodup
+  rw [List.pairwise_filterMap]
+  apply List.Pairwise.imp _ (hilbertPts_spec (clog2 (max w h))).1
+  intro a b hab c hc c' hc' e
+  subst e
+  obtain ⟨ax, ay⟩ := a
+  obtain ⟨bx, yb⟩ := b
+  simp only at hc hc'
+  split at hc <;> simp at hc
+  split at hc' <;> simp at hc'
+  apply hab
+  rw [← hc] at hc'
+  simp only [Prod.mk.injEq] at hc' ⊢
+  omega
+
+/-- the Hilbert chip order lists every chip of a `w x h` machine exactly once -/
+theorem hilbertChips_cover (w h : Nat) :
+    (hilbertChips w h).Nodup ∧ ∀ x y, x < w → y < h → (x, y) ∈ hilbertChips w h := by
+  refine ⟨hilbertChips_nodup w h, fun x y hx hy => ?_⟩
+  rw [hilbertChips_mem]
+  have := le_two_pow_clog2 (max w h)
+  simp only
+  omega
+
 end Rig.C02
